@@ -2,6 +2,7 @@ import GrinVerif.Drv.Common
 import GrinVerif.Model.Pmmr
 import GrinVerif.Model.PmmrHandle
 import GrinVerif.Model.PmmrU64
+import GrinVerif.Model.PmmrViews
 namespace GV.Drv.PmmrD
 open GV GV.Pmmr GV.Drv
 
@@ -14,6 +15,8 @@ structure St where
   hashes : List Bytes := []
   /-- remove log of the Vec backend -/
   removed : List Nat := []
+  /-- data vector of the Vec backend (one element per push) -/
+  elems : List Bytes := []
   /-- the live handle of the `handle` / `atsize` runs (`Model/PmmrHandle.lean`): backend + size -/
   h : Handle Bytes Bytes := {}
   /-- backend saved by `hsave`, brought back by `hrestore` -/
@@ -205,7 +208,7 @@ def handle (st : St) (args : List String) (impl : String) : St × Verdict :=
   | ["new"] => ({ hashes := [], removed := [] }, .ok)
   | ["push", e] => match parseHex e with
     | some e => match push realHF st.hashes e with
-      | some hs => ({ st with hashes := hs }, cmpSpec s!"{hs.length} {showRoot (root realHF hs)}" impl)
+      | some hs => ({ st with hashes := hs, elems := st.elems ++ [e] }, cmpSpec s!"{hs.length} {showRoot (root realHF hs)}" impl)
       | none => (st, cmpSpec "err" impl)
     | none => (st, .unknown)
   | ["root"] => (st, cmpSpec (showRoot (root realHF st.hashes)) impl)
@@ -226,6 +229,29 @@ def handle (st : St) (args : List String) (impl : String) : St × Verdict :=
       (st, cmpSpec (showBool (verify realHF rt sz path e p)) impl)
     | _, _, _, _, _ => (st, .unknown)
   -- views at a size over the backend with its remove log (sizes beyond the backend are not modelled)
+  -- element side of the read-only views (`Model/PmmrViews.lean`)
+  | ["vdata", s, p] => match nat? s, nat? p with
+    | some s, some p => (st, cmpModel (showOptHex (vGetData (⟨st.hashes, st.elems, st.removed⟩ : DBackend Bytes Bytes) s p)) impl)
+    | _, _ => (st, .unknown)
+  | ["vlastn", s, n] => match nat? s, nat? n with
+    | some s, some n =>
+      let l := vLastN (⟨st.hashes, st.elems, st.removed⟩ : DBackend Bytes Bytes) s n
+      (st, cmpModel ("[" ++ ",".intercalate (l.map fun x => s!"{toHex x.1}:{toHex x.2}") ++ "]") impl)
+    | _, _ => (st, .unknown)
+  | ["velems", s, i, m, mp] => match nat? s, nat? i, nat? m with
+    | some s, some i, some m =>
+      let mp' : Option (Option Nat) := if mp == "none" then some none else (nat? mp).map some
+      match mp' with
+      | some mp' =>
+        let r := vElementsFrom (⟨st.hashes, st.elems, st.removed⟩ : DBackend Bytes Bytes) s i m mp'
+        (st, cmpModel s!"{r.1} {showHexList r.2}" impl)
+      | none => (st, .unknown)
+    | _, _, _ => (st, .unknown)
+  | ["vleafpos", _] =>
+    (st, cmpModel (showNatList (vLeafPosIter (⟨st.hashes, st.elems, st.removed⟩ : DBackend Bytes Bytes))) impl)
+  | ["vleafidx", _, f] => match nat? f with
+    | some f => (st, cmpModel (showNatList (vLeafIdxIter (⟨st.hashes, st.elems, st.removed⟩ : DBackend Bytes Bytes) f)) impl)
+    | none => (st, .unknown)
   | ["vroot", s] => match nat? s with
     | some s => if s ≤ st.hashes.length then
         (st, cmpSpec (showRoot (vRoot realHF ⟨st.hashes, st.removed⟩ s)) impl) else (st, .unknown)
